@@ -123,6 +123,10 @@ USER_SOURCES['implicit-then-finally'] = (['def guarded2(v):', '    try:', '     
 USER_SOURCES['stdlib-bdbquit'] = (['import bdb'], "raise bdb.BdbQuit('student quits the debugger')", 'BdbQuit')
 USER_SOURCES['stdlib-timeouterror'] = ([], "raise TimeoutError('the student says time is up')", 'TimeoutError')
 USER_SOURCES['stdlib-skiptest'] = (['import unittest'], "raise unittest.SkipTest('skipping')", 'SkipTest')
+# a SyntaxError built by the program itself (a parser assignment): its position fields are whatever the student put there
+USER_SOURCES['made-up-syntaxerror'] = ([], "raise SyntaxError('my own parser gave up', ('input.txt', 3, 1, 'x y z'))", 'SyntaxError')
+USER_SOURCES['made-up-syntaxerror-odd-fields'] = ([], "raise SyntaxError('my own parser gave up', ('f', 'x', 'y', 'z'))", 'SyntaxError')
+USER_SOURCES['made-up-syntaxerror-negative'] = ([], "raise SyntaxError('m', ('answer.py', -5, -5, 'abc', -7, -9))", 'SyntaxError')
 USER_SOURCES['stdlib-notimplemented'] = ([], "raise NotImplementedError", 'NotImplementedError')
 SYNTAX_SOURCES = {
     'syntax-unclosed-paren': 'x = (1,\nprint(x)\n',
